@@ -6,7 +6,11 @@ package main
 //      status vector, done flags / error counts after every step, final error lists, the event log)
 //      and L2 oracles evaluated directly on the log;
 //  (b) a misuse stream (second Close, DoneTask without a task, signalling a closed scope, On after Close);
-//  (c) concurrent runs (operations from 2..8 goroutines on one tree) checked by the L2 oracles only.
+//  (c) concurrent runs (operations from 2..8 goroutines on one tree) checked by the L2 oracles only;
+//  (d) c11_midcall.go: Kill / Stop / AppendError forced in BETWEEN two instructions of a NewChild /
+//      AddTasks on a scope of the same context (40% of the histories without misuse, and a scripted
+//      sweep): L1 = one of the two orders of the pair (Corr.C11.CRace11), L2 = the oracles of (a) with
+//      the registration of such a child left open, plus "no call panics in a history without misuse".
 
 import (
 	"fmt"
@@ -222,6 +226,20 @@ func l2Seq(o *Out, r seqResult, strict bool) {
 		for _, v := range r.Violations {
 			fail("waits", v)
 		}
+		// no misuse in the history (every DoneTask is for an accepted task, nothing is closed twice,
+		// nothing signals a closed scope): then no call panics - in particular no counter goes negative
+		for i, c := range w.closers {
+			if c.first && r.CStatus[i] == 4 {
+				fail("no_panic", fmt.Sprintf("the (only) Close of scope %d panicked", c.scope))
+			}
+		}
+		for i, ob := range r.Obs {
+			for _, m := range ob.Main {
+				if m == "SPanic" {
+					fail("no_panic", fmt.Sprintf("step %d (%s on scope %d) panicked", i, r.Hist[i].K, r.Hist[i].S))
+				}
+			}
+		}
 	}
 	if r.Hang {
 		fail("no_hang", "a Close that the bookkeeping says must return did not (or a watcher never acted)")
@@ -321,17 +339,49 @@ func runC11Conc(o *Out, rng *RNG) {
 			pos := rng.Intn(len(progs[gi]) + 1)
 			progs[gi] = append(progs[gi][:pos], append([]concOp{op}, progs[gi][pos:]...)...)
 		}
+		// the tree also grows DURING the run: a child (shared or isolated context) is created on a scope
+		// before the same program calls that scope's Close, while the other programs signal and close;
+		// the program closes the child at its end
+		if rng.Chance(50) {
+			var cl []int
+			for i, op := range progs[gi] {
+				if op.K == "close" {
+					cl = append(cl, i)
+				}
+			}
+			if len(cl) > 0 {
+				ci := cl[rng.Intn(len(cl))]
+				op := concOp{K: "child", S: progs[gi][ci].S}
+				if rng.Chance(35) {
+					op.K = "child_iso"
+				}
+				pos := rng.Intn(ci + 1)
+				progs[gi] = append(progs[gi][:pos], append([]concOp{op}, progs[gi][pos:]...)...)
+			}
+		}
 	}
 	start := make(chan struct{})
 	var wg, cwg sync.WaitGroup
 	var mu sync.Mutex
 	var closers []closerView
+	var dynPanics []string
 	for gi := range progs {
 		wg.Add(1)
 		go func(prog []concOp) {
 			defer wg.Done()
 			<-start
 			var pending []int
+			var children []app.Scope
+			dyn := func(what string, f func()) {
+				defer func() {
+					if r := recover(); r != nil {
+						mu.Lock()
+						dynPanics = append(dynPanics, fmt.Sprintf("%s: %.90v", what, r))
+						mu.Unlock()
+					}
+				}()
+				f()
+			}
 			for _, op := range prog {
 				func() {
 					defer func() { recover() }() // Kill/Stop/AppendError on a closed scope panic by design
@@ -368,6 +418,14 @@ func runC11Conc(o *Out, rng *RNG) {
 					case "pretask_done":
 						w.record(evTaskDone, op.S, 0, -1)
 						sc.DoneTask()
+					case "child", "child_iso":
+						dyn(fmt.Sprintf("NewChild on scope %d (its Close not yet called)", op.S), func() {
+							cp := scope.ChildParams{}
+							if op.K == "child_iso" {
+								cp.ContextScope = contextscope.NewIsolated(sc)
+							}
+							children = append(children, scope.NewChild(sc, cp))
+						})
 					case "task":
 						if sc.AddTasks(1) == nil {
 							pending = append(pending, op.S)
@@ -389,6 +447,10 @@ func runC11Conc(o *Out, rng *RNG) {
 			for _, s := range pending {
 				w.scopes[s].DoneTask()
 			}
+			for _, ch := range children {
+				ch := ch
+				dyn("Close of a child created during the run", func() { ch.Close() })
+			}
 		}(progs[gi])
 	}
 	close(start)
@@ -405,6 +467,9 @@ func runC11Conc(o *Out, rng *RNG) {
 	log := append([]logEntry{}, w.log...)
 	w.mu.Unlock()
 	desc["log"] = log
+	for _, m := range dynPanics {
+		o.Fail("no_panic", "concurrent run: "+m, "dyn_child_panic", desc)
+	}
 	for i := range closers {
 		if closers[i].status == 4 {
 			o.Fail("no_panic", fmt.Sprintf("Close of scope %d panicked: %s", closers[i].scope, closers[i].msg), "close_panic", desc)
@@ -436,12 +501,17 @@ func runC11(o *Out, rng *RNG, tier string, replay string) {
 		"stream adds second Close / DoneTask without task / signalling or On on a closed scope. Non-trivial: at least one Close returned; " +
 		"distinct by history. A third of the children are made by gio.NewChildIOContext and closed through IOContext.Close, a quarter of the " +
 		"AddTasks calls carry a delta of 2-3 (emitted to Coq as single additions), 40% of the random listeners join an earlier listener's " +
-		"(scope, event). Concurrent runs (2..8 goroutines, with tasks accepted before the start) are checked by the L2 oracles only; " +
-		"L2 families: wait-recheck, gio probe, Close racing Close on one scope, Close + Wait callers parked on one scope."
+		"(scope, event). Concurrent runs (2..8 goroutines, with tasks accepted before the start; half of the programs also create a child, shared " +
+		"or isolated, on a scope they close later, and close it at their end) are checked by the L2 oracles only; " +
+		"L2 families: wait-recheck, gio probe, Close racing Close on one scope, Close + Wait callers parked on one scope. " +
+		"Mid-call end: in 40% of the histories without misuse every context is wrapped so that a Kill/Stop/AppendError (on the context or through " +
+		"a scope sharing it) is issued at the k-th look (k <= 2, before or after it) that a NewChild / AddTasks takes at the parent's context; such a " +
+		"pair has one observation and must equal one of its two orders in the model; 720 scripted histories sweep hook point x kind of end x what " +
+		"else is registered on the parent (nothing, a task, a sibling child) x kind of parent and child; in histories without misuse no call may panic."
 	thorough := tier == "thorough"
 	if replay != "" {
 		if r, ok := replayHistory(replay); ok {
-			o.AddCase(fmt.Sprintf("CSeq11 %s %s %s %s", r.coqHist(), r.coqObs(), r.coqErrs(), r.coqLog()), r.desc(), "replay", true)
+			o.AddCase(c11Case(r), r.desc(), "replay", true)
 			l2Seq(o, r, false)
 		} else {
 			fmt.Println("replay file holds a concurrent run: re-run the check with the same seed to repeat it")
@@ -459,9 +529,19 @@ func runC11(o *Out, rng *RNG, tier string, replay string) {
 	hangs := 0
 	for i := 0; i < nSeq; i++ {
 		misuse := rng.Chance(20)
-		r := runSeq(genNext(rng, genCfg{listeners: true, misuse: misuse, maxOps: 5 + rng.Intn(26), drain: rng.Chance(65), wide: true}, o), 600)
+		race := !misuse && rng.Chance(40)
+		r := runSeq(genNext(rng, genCfg{listeners: true, misuse: misuse, maxOps: 5 + rng.Intn(26), drain: rng.Chance(65), wide: true, race: race}, o), 600)
+		if r.hasRace() {
+			o.Stat("histories_with_midcall_end")
+		}
 		for _, p := range r.Hist {
 			o.Stat("op_" + p.K)
+			if p.End != nil {
+				o.Stat("midcall_" + p.K + "_" + p.End.K)
+				if p.Fired {
+					o.Stat("midcall_reached_hook_point")
+				}
+			}
 			if p.K == "newchild" && p.Iso {
 				o.Stat("op_newchild_isolated")
 			}
@@ -504,8 +584,9 @@ func runC11(o *Out, rng *RNG, tier string, replay string) {
 			}
 			continue
 		}
-		o.AddCase(fmt.Sprintf("CSeq11 %s %s %s %s", r.coqHist(), r.coqObs(), r.coqErrs(), r.coqLog()), r.desc(), "seq:"+r.key(), returned > 0)
+		o.AddCase(c11Case(r), r.desc(), "seq:"+r.key(), returned > 0)
 	}
+	c11MidCallSweep(o)
 
 	nRecheck := 400
 	if thorough {
